@@ -33,7 +33,77 @@ func (c18) MinNontrivial(tier string) int { return tierN(tier, 600, 6000) }
 
 var c18Validator = validator.New(validator.WithRequiredStructEnabled())
 
+// preset: a field that the component's constructor filled before the start receives the bound value - the
+// expression's result, the configured value - not a mixture of it and its previous content, and it is the
+// bound value that is validated.
+func (p c18) preset(c *core.Ctx) {
+	a, b := 9000+c.Rng.Intn(100), 9000+c.Rng.Intn(100)
+	doc := fmt.Sprintf("p:\n  a: %d\n  b: %d\n", a, b)
+	lim := world.BuildStruct([]world.FieldSpec{
+		{Name: "Soft", Type: reflect.TypeOf(0), Tag: `yaml:"soft"`},
+		{Name: "Hard", Type: reflect.TypeOf(0), Tag: `yaml:"hard" validate:"required"`},
+	})
+	var ft reflect.Type
+	var tag string
+	var presetV, want any
+	wantFail := false
+	switch c.Rng.Intn(5) {
+	case 0: // list result of an expression over placeholders into a longer preset slice
+		ft, presetV = reflect.TypeOf([]int{}), []int{80, 443, 8080}
+		tag, want = "#{[${p.a}+1,${p.b}]}", []int{a + 1, b}
+	case 1: // ... validated: the bound value satisfies the constraint, the preset tail would not
+		ft, presetV = reflect.TypeOf([]int{}), []int{80, 443, 8080}
+		tag, want = "[${p.a},${p.b}],validate=len=2 dive gt=8999", []int{a, b}
+	case 2: // mapping into a preset map
+		ft, presetV = reflect.TypeOf(map[string]string{}), map[string]string{"old": "x", "keep": "y"}
+		tag, want = "map[fresh:${p.a}]", map[string]string{"fresh": fmt.Sprint(a)}
+	case 3: // struct: the bound value lacks a required member the preset had
+		ft = lim
+		pv := reflect.New(lim).Elem()
+		pv.Field(0).SetInt(5)
+		pv.Field(1).SetInt(100)
+		presetV = pv.Interface()
+		tag, wantFail = "map[soft:${p.a}],validate", true
+	default: // struct: fully bound
+		ft = lim
+		pv := reflect.New(lim).Elem()
+		pv.Field(0).SetInt(5)
+		pv.Field(1).SetInt(100)
+		presetV = pv.Interface()
+		wv := reflect.New(lim).Elem()
+		wv.Field(0).SetInt(int64(a))
+		wv.Field(1).SetInt(int64(b))
+		tag, want = "map[soft:${p.a} hard:${p.b}],validate", wv.Interface()
+	}
+	full := fmt.Sprintf("value:%q", tag)
+	h := world.NewHolder(world.BuildStruct([]world.FieldSpec{{Name: "F", Type: ft, Tag: full}}))
+	reflect.ValueOf(h).Elem().Field(0).Set(reflect.ValueOf(presetV))
+	r := world.Start(&world.Scenario{Config: doc}, world.Options{Extra: []any{h}, NoTracer: true, BinderBudget: 20000})
+	c.Count("starts", 1)
+	c.Count("starts_with_preset_fields", 1)
+	got := reflect.ValueOf(h).Elem().Field(0).Interface()
+	detail := map[string]any{"tag": full, "config": doc, "preset": fmt.Sprintf("%+v", presetV), "outcome": core.Short(r.OutcomeDetail(), 300)}
+	if abnormal(r.Outcome()) {
+		c.Fail("", fmt.Sprintf("tag %s on a preset field: %s", full, r.OutcomeDetail()), detail)
+		return
+	}
+	if wantFail {
+		if r.Outcome() != "error" {
+			c.Fail("", fmt.Sprintf("tag %s on a field preset to %+v: the bound value lacks a required member, but the start outcome is %s (field: %+v)", full, presetV, r.Outcome(), got), detail)
+			return
+		}
+	} else if r.Outcome() != "ok" || !reflect.DeepEqual(got, want) {
+		c.Fail("", fmt.Sprintf("tag %s on a field preset to %+v: outcome %s, the field holds %+v, the bound value is %+v", full, presetV, r.Outcome(), got, want), detail)
+		return
+	}
+	c.Nontrivial("preset|" + full + "|" + doc)
+}
+
 func (p c18) Run(c *core.Ctx) {
+	if c.Index%24 == 5 {
+		p.preset(c)
+		return
+	}
 	if c.Index%12 == 7 {
 		p.repeated(c)
 		return
